@@ -1,6 +1,7 @@
 """Shared machinery for ./check: building the Coq development and the extracted
 OCaml model of one property, running the model driver, collecting violations,
 known findings, replays and evidence.  See DESIGN.md §2 and §5."""
+import fcntl
 import hashlib
 import json
 import os
@@ -140,6 +141,28 @@ def parse_assumptions(stdout, names):
     return res
 
 
+class FileLock:
+    """exclusive advisory lock on build/locks/<name>.lock, so that concurrent ./check runs (different properties
+    share coq/Base; two runs of one property share coq/<pid>, its Generated*.v and build/<pid>) never interleave"""
+
+    def __init__(self, name):
+        d = os.path.join(BUILD, 'locks')
+        os.makedirs(d, exist_ok=True)
+        self.path = os.path.join(d, name + '.lock')
+        self.fh = None
+
+    def __enter__(self):
+        self.fh = open(self.path, 'w')
+        fcntl.flock(self.fh, fcntl.LOCK_EX)
+        return self
+
+    def __exit__(self, *a):
+        try:
+            fcntl.flock(self.fh, fcntl.LOCK_UN)
+        finally:
+            self.fh.close()
+
+
 class BuildResult:
     def __init__(self):
         self.ok = True            # every proof obligation compiled
@@ -178,10 +201,15 @@ def build_property(pid, mod, tier='quick', verbose=False):
     # 3. make
     jobs = os.environ.get('VERIF_JOBS', '8')
     for dd in (base, d):
-        ensure_makefile(dd)
-        if tier == 'thorough' and dd == d and os.environ.get('VERIF_NO_CLEAN') != '1':
-            sh('make clean', cwd=dd, timeout=300)
-        rc, out, _ = sh('make -k -j%s' % jobs, cwd=dd, timeout=int(os.environ.get('VERIF_MAKE_TIMEOUT', '2400')))
+        if dd == base:
+            with FileLock('Base'):
+                ensure_makefile(dd)
+                rc, out, _ = sh('make -k -j%s' % jobs, cwd=dd, timeout=int(os.environ.get('VERIF_MAKE_TIMEOUT', '2400')))
+        else:
+            ensure_makefile(dd)
+            if tier == 'thorough' and os.environ.get('VERIF_NO_CLEAN') != '1':
+                sh('make clean', cwd=dd, timeout=300)
+            rc, out, _ = sh('make -k -j%s' % jobs, cwd=dd, timeout=int(os.environ.get('VERIF_MAKE_TIMEOUT', '2400')))
         log.append(out)
         if rc != 0:
             br.ok = False
